@@ -12,6 +12,7 @@ import (
 	"sort"
 	"strconv"
 	"strings"
+	"sync"
 	"time"
 
 	"github.com/zmap/zlint/v3/formattedoutput"
@@ -94,14 +95,76 @@ func census(repo string) ([]regSite, []string, error) {
 	return sites, dirs, err
 }
 
+// knownSources: the lint sources the library DECLARES - every constant of type LintSource in <repo>/v3/lint (read from
+// the sources at check time, so a source added together with its parser cases is simply one more declared source), the
+// reserved "Unknown" excepted. The list below is only the fallback when the sources cannot be read.
 var knownSources = map[lint.LintSource]bool{
 	lint.RFC3279: true, lint.RFC5280: true, lint.RFC5480: true, lint.RFC5891: true, lint.RFC6960: true, lint.RFC6962: true, lint.RFC8813: true,
 	lint.CABFBaselineRequirements: true, lint.CABFCSBaselineRequirements: true, lint.CABFSMIMEBaselineRequirements: true, lint.CABFEVGuidelines: true,
 	lint.MozillaRootStorePolicy: true, lint.AppleRootStorePolicy: true, lint.Community: true, lint.EtsiEsi: true,
 }
 
+// declaredSources parses the non-test files of <repo>/v3/lint for constants of type LintSource.
+func declaredSources(repo string) (map[lint.LintSource]bool, error) {
+	out := map[lint.LintSource]bool{}
+	files, err := filepath.Glob(filepath.Join(repo, "v3", "lint", "*.go"))
+	if err != nil {
+		return nil, err
+	}
+	fset := token.NewFileSet()
+	for _, p := range files {
+		if strings.HasSuffix(p, "_test.go") {
+			continue
+		}
+		f, err := parser.ParseFile(fset, p, nil, 0)
+		if err != nil {
+			return nil, err
+		}
+		for _, d := range f.Decls {
+			gd, ok := d.(*ast.GenDecl)
+			if !ok || gd.Tok != token.CONST {
+				continue
+			}
+			for _, sp := range gd.Specs {
+				vs, ok := sp.(*ast.ValueSpec)
+				if !ok {
+					continue
+				}
+				if id, ok := vs.Type.(*ast.Ident); !ok || id.Name != "LintSource" {
+					continue
+				}
+				for _, v := range vs.Values {
+					if bl, ok := v.(*ast.BasicLit); ok && bl.Kind == token.STRING {
+						if sv, err := strconv.Unquote(bl.Value); err == nil && lint.LintSource(sv) != lint.UnknownLintSource {
+							out[lint.LintSource(sv)] = true
+						}
+					}
+				}
+			}
+		}
+	}
+	if len(out) == 0 {
+		return nil, fmt.Errorf("no LintSource constants found under %s/v3/lint", repo)
+	}
+	return out, nil
+}
+
+var declaredOnce sync.Once
+
+func loadDeclaredSources(c *mon.Ctx) {
+	declaredOnce.Do(func() {
+		if ds, err := declaredSources(c.Repo); err == nil {
+			knownSources = ds
+			c.R.Note("declared_sources", len(ds))
+		} else {
+			c.R.Inconcl("declared lint sources not readable from the tree, using the built-in list: " + err.Error())
+		}
+	})
+}
+
 func c12Once(c *mon.Ctx) {
 	g := lint.GlobalRegistry()
+	loadDeclaredSources(c)
 	sites, dirs, err := census(c.Repo)
 	if err != nil {
 		c.R.Inconcl("census failed: " + err.Error())
@@ -149,6 +212,7 @@ func c12Once(c *mon.Ctx) {
 
 // c12Invariants: the lookup tables of a registry agree with each other and every lint is well-formed.
 func c12Invariants(c *mon.Ctx, g lint.Registry, names []string, inReg map[string]bool, when string) {
+	loadDeclaredSources(c)
 	// (2) names unique across kinds, sorted
 	if !sort.StringsAreSorted(names) {
 		c.V("names-not-sorted", when+": "+"Names() is not sorted", "", nil, nil)
